@@ -14,6 +14,13 @@ CLAIMED = {
             "6.A C20"),
 }
 
+CLAIMED["C22"] = ("Proof for all accepted datagrams: Header.Unpack returns the header length and type found on the wire, every (*T).Unpack sets each field to the bytes at its MQTT-SN 1.2 position (28 postconditions written from the specification), and ReadPacket hands exactly the bytes after the actual header to the decoder of the type found at its position (site assertions).",
+            "Trusted: io.Reader.Read contract, encoding/binary.BigEndian, go/ssa lowering, govc encoding, SMT solvers. Re-encoding equality follows from these field postconditions together with the C21 Pack contracts; it is not a separate obligation.",
+            "6.A C22")
+CLAIMED["C21"] = ("Proof for all legal field values: every Pack is verified against a byte-level encoding written from the specification (header form, length field, field offsets, quantified payload clause), SetVarPartLength against the 255 boundary, and 28 ghost round-trip lemma functions (construct, Pack, decode) are verified from those contracts; the short-topic encoding is proved a bijection for all 65536 IDs and all 2-byte names.",
+            "The decode step of the lemmas mirrors ReadPacket's body (Header.Unpack, NewPacketWithHeader, Unpack of the bytes after the header); ReadPacket's own glue is C22's. Small helpers (computeLength, encodeFlags, PackToBuffer, EncodeUint16, constructors) are inlined, not contracted. bytes.Buffer is a trusted append-only model.",
+            "6.A C21")
+
 NA = {
     "C10": "real-time liveness (session ends within 5 s + poll) across timers, goroutines and context cancellation: no per-call contract expresses elapsed time",
     "C12": "timed histories (a broker packet in every 1.5x keep-alive window): needs a clock and an environment model, not a per-call contract",
